@@ -20,6 +20,7 @@ type Env struct {
 	bound map[string]bool
 	oldVars map[string]Val // entry values of (reassigned) parameters, visible inside old()
 	patc    *patCollector  // collects default triggers while a quantifier body is translated
+	derefOv map[string]string // pointer term -> value: captured cells that nobody writes once the closure exists
 }
 
 // patCollector gathers candidate triggers for a quantifier: reads of the CURRENT state indexed
@@ -782,6 +783,9 @@ func (e *Env) call(c *ECall) Val {
 			e.fail("deref of non-pointer")
 		}
 		es := sortOf(pt.Elem())
+		if ov, ok := e.derefOv[a.T]; ok {
+			return term(ov, es, pt.Elem())
+		}
 		return term(sel(e.heap("cell."+es, es), a.T), es, pt.Elem())
 	case "funcref":
 		// funcref("bytes.Compare"): the reference a function constant evaluates to
@@ -836,6 +840,7 @@ type target struct {
 	whole bool
 	fresh bool   // only objects allocated during the call
 	ref   string // specific location (when !whole && !fresh)
+	older string // only locations born before this object (a function value): `older(f) cell.Int`
 }
 
 // evalTargets resolves a list of modifies targets in env e (evaluated in the pre state).
@@ -866,6 +871,24 @@ func (e *Env) evalTargets(list []string) (ts []target, err error) {
 			if !found {
 				e.fail("unknown ghost %q in modifies", name)
 			}
+		case strings.HasPrefix(s, "older("):
+			// older(f) A: of array A only the locations that already existed when the object f (a function
+			// value) was made -- what a closure can have captured
+			close := strings.Index(s, ")")
+			if close < 0 {
+				e.fail("bad modifies target %q", s)
+			}
+			ex, perr := parseExpr(s[len("older("):close])
+			if perr != nil {
+				e.fail("%v", perr)
+			}
+			fv := asTerm(e.eval(ex))
+			name := strings.TrimSpace(s[close+1:])
+			arr, es := e.x.arrayByName(name)
+			if arr == "" {
+				e.fail("unknown heap array %q in modifies", name)
+			}
+			ts = append(ts, target{array: arr, esort: es, older: fv.T})
 		case strings.HasPrefix(s, "new "):
 			name := strings.TrimSpace(strings.TrimPrefix(s, "new "))
 			arr, es := e.x.arrayByName(name)
